@@ -5,7 +5,7 @@
 # Writes /verif/seeded/<ID>-<N>/{patch.diff,demo.py,notes.md,meta.json}
 set -u
 ID="$1"; N="$2"; shift 2
-SD=/tmp/seed_${ID}_out; WT=/tmp/wt_$ID; OUT=/verif/seeded/$ID-$N
+if [ "${ROUND:-1}" = "2" ]; then SD=/tmp/seed2_${ID}_out; WT=/tmp/w2_$ID; OUT=/verif/seeded/$ID-$((N+2)); else SD=/tmp/seed_${ID}_out; WT=/tmp/wt_$ID; OUT=/verif/seeded/$ID-$N; fi
 mkdir -p "$OUT"; cp "$SD/patch$N.diff" "$OUT/patch.diff"; cp "$SD/demo$N.py" "$OUT/demo.py"; cp "$SD/notes.md" "$OUT/notes.md" 2>/dev/null
 HEAD=$(git -C /repo rev-parse HEAD)
 git -C "$WT" checkout -q -- . ; git -C "$WT" checkout -q --detach "$HEAD" || exit 3
@@ -39,7 +39,7 @@ for P in "$@"; do
 done
 git -C /repo checkout -- .
 cat > "$OUT/meta.json" <<META
-{"property": "$ID", "seed": "$ID-$N", "source": "independent sub-agent, given only the property text and a scratch worktree",
+{"property": "$ID", "seed": "$(basename $OUT)", "source": "independent sub-agent, given only the property text and a scratch worktree",
  "tree": "$HEAD", "demo_exit_without_change": $DC, "demo_exit_with_change": $DP, "suite_with_change": "$SUITE",
  "ran": ["cd <worktree at HEAD> && /venv/bin/python demo.py (without / with patch.diff)", "pytest baseline with patch.diff", "git -C /repo apply patch.diff; bin/check <P> quick; git -C /repo checkout -- ."],
  "checks": [${RES%,}]}
